@@ -251,4 +251,5 @@ End Wf.
 Definition wf_schema (Sc : schema) : bool :=
   nodupb (map f_tag (s_fields Sc)) && nodupN (map f_name (s_fields Sc))
   && nodupb (map fst (s_messages Sc))
+  && negb (existsb (fun m => str_eqb (mtag m) TAG10) (s_header Sc))   (* CheckSum is not a header member *)
   && forallb (fun p => wf_set Sc (s_header Sc ++ snd p)) (s_messages Sc).
